@@ -4,7 +4,11 @@ C03 — the three functions through which the placement stages write into a `Cir
 (`GlobalPlacer::exportPlacement(Circuit&, xplace, yplace)` in place_global.cpp,
 `Legalizer::exportPlacement` in legalizer.cpp, `DetailedPlacement::exportPlacement` in
 detailed_placement.cpp), modelled loop for loop over the shared `Circuit` record, and the
-frame relation they are proved to respect.  Core Lean only (the driver links this file).
+frame relation they are proved to respect; plus what calls them: `blendPlacement` and
+`GlobalPlacer::exportPlacement(Circuit&) const` (binary32 blend of the LB/UB vectors), the callback
+paths `GlobalPlacer::callback` / `DetailedPlacer::callback`, the bodies of `GlobalPlacer::place` /
+`DetailedPlacer::place` as sequences of exports, and the `InUseGuard` wrappers of src/coloquinte.cpp.
+Core Lean only (the driver links this file).
 
 Conventions: C++ `int` is `Int`; the float/double arithmetic of the global export
 (`std::round(xplace[i] - 0.5 * placedWidth(i))`) is modelled exactly over `Rat`
